@@ -35,6 +35,9 @@ SPEC_DIR = "/verif/specs/shared"
 LEVEL = "model_checking"
 CONFIGURED = 0.7
 NC = 3  # conversation slots of Trace_Shared (traces are padded)
+# The implementation-shaped spec follows the code: FALSE = a history-cache entry is used whenever its
+# key matches (the tree as it is); TRUE = only for the exact message prefix it was stored for.
+VERIFY_PREFIX = False
 
 COLANG = '''
 define user express greeting
@@ -114,14 +117,7 @@ def _patch_llmparams():
 
 
 class RecCache(dict):
-    """events_history_cache replacement: a dict that logs membership tests and stores."""
-
-    def __contains__(self, k):
-        r = dict.__contains__(self, k)
-        rec = _REC["cur"]
-        if rec is not None:
-            rec.lookups.append((k, r))
-        return r
+    """events_history_cache replacement: a dict that logs stores (key, writing conversation)."""
 
     def __setitem__(self, k, v):
         dict.__setitem__(self, k, v)
@@ -129,6 +125,25 @@ class RecCache(dict):
         if rec is not None and rid is not None:
             rec.writer[k] = rid[0]
             rec.on_store(rid, k)
+
+
+def _entry_events(v):
+    if isinstance(v, dict):
+        v = v.get("events")
+    return v if isinstance(v, list) else None
+
+
+def _hit(cache, messages, events):
+    """Which cached prefix the returned event list was continued from: the longest prefix whose
+    entry is, element for element, the beginning of `events` (independent of how the code looks
+    the entry up).  Returns (p, key) or (0, None)."""
+    from nemoguardrails.rails.llm.utils import get_history_cache_key
+    for p in range(len(messages) - 1, 0, -1):
+        k = get_history_cache_key(messages[0:p])
+        lst = _entry_events(dict.get(cache, k))
+        if lst and len(lst) <= len(events) and all(a is b for a, b in zip(lst, events)):
+            return p, k
+    return 0, None
 
 
 def _msg_view(messages):
@@ -161,7 +176,6 @@ class Recorder:
         self.llm = llm
         self.ev = []
         self.turns = {}
-        self.lookups = []
         self.inflight = 0
         self.lat = lat or {}
         self.ncall = {}
@@ -181,16 +195,13 @@ class Recorder:
         if self.inflight == 0:
             self.ev.append({"k": "Idle", "c": 0, "x": _milli(self.llm.temperature), "y": 0})
 
-    def on_serve(self, rid, messages, events, lookups):
+    def on_serve(self, rid, messages, events, cache):
         d = self.turns[rid]
         d["own"] = _msg_view(messages)
         d["used"] = _event_view(events)
-        for idx, (k, hit) in enumerate(lookups):
-            if hit:
-                d["hp"] = len(messages) - 1 - idx
-                d["hkey"] = list(k)
-                d["hw"] = self.writer.get(k, 0)
-                break
+        p, k = _hit(cache, messages, events)
+        if p:
+            d["hp"], d["hkey"], d["hw"] = p, list(k), self.writer.get(k, 0)
         self.ev.append({"k": "Serve", "c": rid[0], "x": 0, "y": 0})
 
     def on_store(self, rid, key):
@@ -240,12 +251,10 @@ class Instance:
 
         def get_events(messages, state):
             rec = _REC["cur"]
-            if rec is not None:
-                rec.lookups = []
             events = orig(messages, state)
             rid = RID.get()
             if rec is not None and rid is not None:
-                rec.on_serve(rid, messages, events, list(rec.lookups))
+                rec.on_serve(rid, messages, events, self.app.events_history_cache)
             return events
 
         self.app._get_events_for_messages = get_events
@@ -410,11 +419,13 @@ def _wjob(job):
 
 # ------------------------------------------------------------------ universes
 def _cfg(mode, nc, seq, rec, emit, invs, temps="{0, 200, 900}", secs="{2, 3}", texts="{1, 2, 3}", mt=2,
-         hf="{1, 3}", hs="{2}"):
-    return ("CONSTANTS\nConfigured = %d\nNC = %d\nUniverse <- MCUniverse\nSequential = %s\nRec = \"%s\"\nMode = \"%s\"\n"
+         hf="{1, 3}", hs="{2}", verify=None):
+    verify = VERIFY_PREFIX if verify is None else verify
+    return ("CONSTANTS\nConfigured = %d\nNC = %d\nUniverse <- MCUniverse\nSequential = %s\nVerify = %s\n"
+            "Rec = \"%s\"\nMode = \"%s\"\n"
             "Lowest = 1\nTemps = %s\nSecCounts = %s\nTextIdx = %s\nMaxTurns = %d\nHistFirst = %s\nHistSecond = %s\n"
             "Emit = %s\nSPECIFICATION Spec\n%s" % (
-                _milli(CONFIGURED), nc, seq, rec, mode, temps, secs, texts, mt, hf, hs, emit,
+                _milli(CONFIGURED), nc, seq, "TRUE" if verify else "FALSE", rec, mode, temps, secs, texts, mt, hf, hs, emit,
                 "".join("INVARIANT %s\n" % i for i in invs)))
 
 
@@ -437,7 +448,7 @@ def conc_grid(quick):
 
     lats = (1, 3) if quick else (1, 2, 3)
     offs = (0, 1, 2, 4, 40) if quick else (0, 1, 2, 3, 5, 40)
-    phases = (0, 7) if quick else (0, 3, 7)
+    phases = (0, 1, 9, 10, 19) if quick else (0, 1, 5, 9, 10, 15, 19, 20)
     kinds2 = [("b", "b"), ("b", ":")]
     temps2 = TEMP_PAIRS if quick else [(x, y) for x in (None, 0.2, 0.9) for y in (None, 0.2, 0.9)]
     for ka, kb in kinds2:
@@ -565,8 +576,9 @@ def _validate(ctx, traces, name):
                           "ev": t["ev"]})
         with open(fn, "w") as f:
             json.dump(clean, f)
-        cfg = ("CONSTANTS\nConfigured = %d\nNC = %d\nUniverse = {}\nSequential = FALSE\nRec = \"none\"\n"
-               "SPECIFICATION TSpec\nCONSTRAINT Track\nPOSTCONDITION TraceReport\n" % (_milli(CONFIGURED), NC))
+        cfg = ("CONSTANTS\nConfigured = %d\nNC = %d\nUniverse = {}\nSequential = FALSE\nVerify = %s\nRec = \"none\"\n"
+               "SPECIFICATION TSpec\nCONSTRAINT Track\nPOSTCONDITION TraceReport\n" % (
+                   _milli(CONFIGURED), NC, "TRUE" if VERIFY_PREFIX else "FALSE"))
         return tlc.run("Trace_Shared.tla", cfg, wd, spec_dirs=[SPEC_DIR], env={"TRACE_FILE": fn}, workers=1, timeout=3000)
 
     verdicts = [None] * len(traces)
@@ -690,7 +702,8 @@ def _run(ctx, pool):
               ("params-full", _cfg("params", npar, "FALSE", "none", "FALSE", [])),
               ("params-sequential", _cfg("params", npar, "TRUE", "none", "FALSE", ["CallOwn", "IdleConfigured"])),
               ("ServeOwn", _cfg("cache", 2, "TRUE", "none", "FALSE", ["ServeOwn"], **cache_kw)),
-              ("cache-concurrent-full", _cfg("cache", 2, "FALSE", "none", "FALSE", [], **cache_kw))]
+              ("cache-concurrent-full", _cfg("cache", 2, "FALSE", "none", "FALSE", [], **cache_kw)),
+              ("ServeOwn-if-prefix-verified", _cfg("cache", 2, "FALSE", "none", "FALSE", ["ServeOwn"], verify=True, **cache_kw))]
         f_design = [tp.submit(design_run, tag, c) for tag, c in dj]
 
         # ---- shared executions
@@ -764,7 +777,7 @@ def _run(ctx, pool):
         unjudged += v["unjudged"]
         foreign = set(tuple(x) for x in v["foreign"])
         badturns = set((b[0], b[1]) for b in v["bad"])
-        foreign_only += len([x for x in foreign if x not in badturns])
+        foreign_only += len([x for x in foreign if x not in badturns and list(x) in [list(j) for j in v["judged"]]])
         desc = {k: ex[k] for k in ("mode", "fam", "convs", "order", "off", "phase", "lat") if k in ex}
         for c, n, kind in sorted(tuple(b) for b in v["bad"]):
             d = tr["convs"][c - 1]["turns"][n - 1]
